@@ -62,13 +62,22 @@ def cases(tier, seed):
         table = T[tname]
         ncols = [1, 1, 2, 3][h % 4]
         cols = ["count", "x", "y"][:ncols]
-        aggs = ["sum"] + [rng.choice(["sum", "max", "min"]) for _ in range(ncols - 1)]
+        aggs = ["sum"] + [rng.choice(["sum", "max", "min", "count"]) for _ in range(ncols - 1)]
+        if h % 13 == 5:
+            aggs[0] = "count"           # an aggregate that is not the identity on a single value
         ins = [addcols(px, ncols, rng, 9) for px in ins]
         order = list(range(k))
         rng.shuffle(order)
         case = {"table": table, "mode": mode, "inputs": ins, "cols": cols, "aggs": aggs, "bits": 32,
                 "buf": rng.choice([1, 2, 3, 5, 10 ** 6]), "order": order}
+        if h % 6 == 2 and k >= 2:
+            # inputs of different integer widths, the narrower first: the output type must accommodate all of them
+            case["bits_in"] = [16] + [32] * (k - 1)
+            case["order"] = list(range(k))
+            case["inputs"] = [case["inputs"][0]] + [[[p[0], p[1]] + [v + 40000 for v in p[2:]] for p in px] for px in case["inputs"][1:]]
         if k >= 2 and h % 4 == 1:
+            # nesting is only meaningful for associative aggregates ("count" of counts is not the count)
+            case["aggs"] = [a if a != "count" else "sum" for a in case["aggs"]]
             case.update({"nested": rng.randint(1, k - 1) if k > 2 else 1, "buf2": rng.choice([1, 4, 10 ** 6]), "left": h % 8 == 1})
         elif h % 7 == 3:
             case["via"] = "cli"
